@@ -98,12 +98,22 @@ def hasConnDir (es : List Entry) (dir : Bytes) : Bool :=
     Hop.isMember (Hop.joinValues ((es.filter (·.id == idProxyConnection)).map (·.value))) dir
   else false
 
+/-- `http_ver <= Http::ProtocolVersion(1,0)` -/
+def verLe10' (vmaj vmin : Nat) : Bool := vmaj < 1 || (vmaj == 1 && vmin == 0)
+
 /-- `http_ver > Http::ProtocolVersion(1,0)` -/
 def verGt10 (vmaj vmin : Nat) : Bool := vmaj > 1 || (vmaj == 1 && vmin > 0)
 
 /-- `Http::Message::persistent()` -/
 def persistent (es : List Entry) (vmaj vmin : Nat) : Bool :=
   if verGt10 vmaj vmin then !hasConnDir es dirClose else hasConnDir es dirKeepAlive
+
+/-- `clientSetKeepaliveFlag`: `request->flags.proxyKeepalive`. `closeAfterTeCl` is the source variant of
+notes/fixes/C03-te-cl-connection-kept.diff (a chunked request that also carried Content-Length, or is HTTP/1.0, is not
+persistent); `clSeen` = a Content-Length field was among the parsed field lines. -/
+def proxyKeepalive (closeAfterTeCl : Bool) (es : List Entry) (vmaj vmin : Nat) (clSeen : Bool) : Bool :=
+  if closeAfterTeCl && chunked es && (clSeen || verLe10' vmaj vmin) then false
+  else persistent es vmaj vmin
 
 /-! ### urlCheckRequest -/
 
@@ -122,13 +132,16 @@ def urlCheckRequest (m : Bytes) (u : UrlView) (maxForwards : Int) : Bool :=
 /-- `http_ver <= Http::ProtocolVersion(1,0)` -/
 def verLe10 (vmaj vmin : Nat) : Bool := vmaj < 1 || (vmaj == 1 && vmin == 0)
 
-/-- `HttpRequest::checkEntityFraming()`: 0 = `Http::scNone` -/
-def checkEntityFraming (h : HdrResult) (vmaj vmin : Nat) (m : Bytes) (contentLength : Int) : Nat :=
+/-- `HttpRequest::checkEntityFraming()`: 0 = `Http::scNone`.
+`rejectNonGet09` is the source variant of notes/fixes/C03-http09-non-get.diff (HTTP/0.x with a method other than GET
+is a 400); the translator probes the staged code for it. -/
+def checkEntityFraming (rejectNonGet09 : Bool) (h : HdrResult) (vmaj vmin : Nat) (m : Bytes) (contentLength : Int) : Nat :=
   if h.teUnsupported then 501
   else if chunked h.entries then 0
   else if h.conflictingContentLength then 400
   else if verLe10 vmaj vmin then
-    if m == mPOST || m == mPUT then (if contentLength ≥ 0 then 0 else 411)
+    if rejectNonGet09 && decide (vmaj < 1) && !(m == mGET) then 400
+    else if m == mPOST || m == mPUT then (if contentLength ≥ 0 then 0 else 411)
     else if m == mGET || m == mHEAD then (if contentLength < 0 then 0 else 400)
     else if m == mDELETE || m == mLINK || m == mUNLINK then (if contentLength < 0 then 0 else 400)
     else 0
